@@ -38,6 +38,18 @@ def C19():
     r_reg.run_jobs(chk, u, "R-REG.divzero", _jobs("r_reg_val", "generator_suite", range(0, maxlen + 1), maxlen=maxlen,
                                                   orders=(0, 1, 2, 3))[:-1],
                    view=lambda st: {k: v for k, v in st.items() if "division" in k[2]})
+    # "... and work": the instantiation with the archetype (not only the one with double) meets the specifications of
+    # the value rules - a compile-time branch on a property of T cannot give user-defined scalars a different meaning
+    ua = F.load("arch_off")
+    chk.units.append("arch_off")
+    lib, _ = _broad_jobs(3, ops=False)
+    n = r_reg.run_jobs(chk, ua, "R-REG.arch", lib)
+    # factorial / binomial tables up to 16!: every integer handed to the scalar type fits an int
+    for unit in (u, ua):
+        r_reg.run_jobs(chk, unit, "R-REG.const", [("bsv.r_reg_ops", "constant_table_suite", dict(nmax=16))])
+    chk.note("regions_evaluated_with_archetype", n)
+    chk.floor("R-REG.arch", chk.rules["R-REG.arch"]["instances"], 100, "(function, clause) obligations on the "
+              "archetype instantiation")
     return chk
 
 
@@ -121,6 +133,8 @@ def C13():
         total += r_reg.run_jobs(chk, u, "R-REG.sup", _jobs("r_reg_sup", "support_suite", range(2, nmax + 1), nmax=nmax))
         total += r_reg.run_jobs(chk, u, "R-REG.grid", _jobs("r_reg_sup", "grid_suite", range(2, nmax + 1),
                                                             maxlen=nmax - 2, ctors=False))
+        # copies / moves / assignments (also across grids) hand over grid and window together
+        total += r_reg.run_jobs(chk, u, "R-REG.inv", _jobs("r_reg_spl", "validity_suite", [3, 4], nmax=4)[:-1])
     chk.note("oracle_self_check_triples", r_reg_sup.check_oracle(6 if C.tier() == "thorough" else 5))
     chk.note("regions_evaluated", total)
     chk.note("grid_size_bound", nmax)
@@ -630,7 +644,7 @@ def C11():
                "are arithmetic and not decided")
     thorough = C.tier() == "thorough"
     total = 0
-    for n in _reg_unit_names():
+    for n in _reg_unit_names() + ["arch_off"]:   # the acceptance conditions hold for a user-defined scalar type too
         u = F.load(n)
         chk.units.append(n)
         jobs = _jobs("r_reg_sup", "grid_suite", [], maxlen=4 if thorough else 3, accessors=False)
